@@ -60,6 +60,7 @@ def node_of(s, ref):
 
 
 DEGRADED = {"mux_order_from_save": 0}
+QUIET = []          # installed recorders (objects with a .depth counter: calls made while it is > 0 are not recorded)
 
 
 def _mux_order_public(s):
@@ -71,7 +72,13 @@ def _mux_order_public(s):
     fd, path = tempfile.mkstemp(suffix=".json", prefix="sl_pj_")
     os.close(fd)
     try:
-        s.save(path)
+        for r in QUIET:          # (this save() is the projection's own business: no installed recorder may log it as a call)
+            r.depth += 1
+        try:
+            s.save(path)
+        finally:
+            for r in QUIET:
+                r.depth -= 1
         with open(path) as f:
             doc = json.load(f)
     finally:
